@@ -156,8 +156,10 @@ def _present(seq, rng):
     out = None
     if r < 0.5:
         out = list(seq)
-    elif r < 0.7:
+    elif r < 0.62:
         return tuple(seq)
+    elif r < 0.7:
+        return iter(list(seq))  # a one-shot iterator is an iterable too
     else:
         try:
             s = set(seq)
